@@ -130,6 +130,24 @@ class ClassInfo:
         return f"{self.module.rel}::{self.name}"
 
 
+def _normalise(tree):
+    """Semantically void differences are removed before any rule looks at the tree: `pass` (and a bare `...`) next to other
+    statements is dropped, and `else:` blocks consisting of one `if` are what `elif` already is in the AST.  Positions of the
+    remaining nodes are untouched."""
+    def void(st) -> bool:
+        return isinstance(st, ast.Pass) or (isinstance(st, ast.Expr) and isinstance(st.value, ast.Constant) and st.value.value is Ellipsis)
+    for node in ast.walk(tree):
+        for fld in ("body", "orelse", "finalbody"):
+            b = getattr(node, fld, None)
+            if isinstance(b, list) and len(b) > 1 and all(isinstance(x, ast.stmt) for x in b):
+                kept = [x for x in b if not void(x)]
+                if kept and len(kept) != len(b):
+                    setattr(node, fld, kept)
+                elif not kept and fld != "body":
+                    setattr(node, fld, [])
+    return tree
+
+
 class Module:
     def __init__(self, root: str, rel: str):
         self.root = root
@@ -138,7 +156,7 @@ class Module:
         with open(self.path, "r", encoding="utf-8") as f:
             self.source = f.read()
         try:
-            self.tree = ast.parse(self.source, filename=self.path)
+            self.tree = _normalise(ast.parse(self.source, filename=self.path))
         except SyntaxError as e:
             raise AnalysisError(f"cannot parse {self.path}: {e}")
         self.modname = "lian." + rel[:-3].replace("/", ".")
@@ -540,3 +558,22 @@ def canon_key(key: str) -> str:
     for i in range(1, len(parts), 2):
         parts[i] = canon_code(parts[i])
     return "`".join(parts)
+
+
+def effective_body(fnode) -> List[ast.stmt]:
+    """Body of a function with the docstring removed and transparent wrappers unwrapped: a body that consists of a single
+    `if <constant true>:`, `with ...:` or `try: ... finally: ...` (no handlers) statement is replaced by that statement's body."""
+    body = list(fnode.body)
+    if body and isinstance(body[0], ast.Expr) and isinstance(body[0].value, ast.Constant) and isinstance(body[0].value.value, str):
+        body = body[1:]
+    while len(body) == 1:
+        st = body[0]
+        if isinstance(st, ast.If) and isinstance(st.test, ast.Constant) and st.test.value and not st.orelse:
+            body = list(st.body)
+        elif isinstance(st, (ast.With, ast.AsyncWith)):
+            body = list(st.body)
+        elif isinstance(st, ast.Try) and not st.handlers and not st.orelse:
+            body = list(st.body)
+        else:
+            break
+    return body
